@@ -242,11 +242,12 @@ Definition nat_to_string (n : nat) : string := nat_to_string_aux (S n) n EmptySt
 Definition new_pack_name (fs : fsmap) : string := ("P" ++ nat_to_string (List.length (pack_files fs)))%string.
 
 (* ObjectWriter: temp file, write, then rename into place (or drop the temp
-   file when the object is already there) *)
-Definition op_setobj (fs : fsmap) (o : oid) : list mutation :=
-  let t := PTmp TObj 0 in
+   file when the object is already there); k numbers the temp files of one operation *)
+Definition op_setobj_k (fs : fsmap) (k : nat) (o : oid) : list mutation :=
+  let t := PTmp TObj k in
   [MTemp t; MWrite t (DLoose o)] ++
   (if fexists fs (PLoose o) then [MRemove t] else [MRename t (PLoose o); MChmod (PLoose o)]).
+Definition op_setobj (fs : fsmap) (o : oid) : list mutation := op_setobj_k fs 0 o.
 
 (* PackWriter.save: idx, rev, promisor marker, and only then the pack itself *)
 Definition pack_save (name : string) (t : path) (os : list oid) (promisor : bool) : list mutation :=
@@ -262,6 +263,17 @@ Definition op_packwrite (fs : fsmap) (os : list oid) (promisor : bool) : list mu
 (* SetRef without old value: truncating create, then write *)
 Definition op_setref (fs : fsmap) (n : string) (v : refval) : list mutation :=
   [MCreate (refpath n); MWrite (refpath n) (DRef v)].
+
+(* a worktree commit at the storage level (worktree_commit.go buildTreeHelper,
+   Worktree.Commit): the new trees bottom-up, the commit object, and only then
+   the branch (or a detached HEAD) *)
+Fixpoint op_setobjs (k : nat) (fs : fsmap) (os : list oid) : list mutation :=
+  match os with
+  | [] => []
+  | o :: r => let ops := op_setobj_k fs k o in ops ++ op_setobjs (S k) (run ops fs) r
+  end.
+Definition op_commit (fs : fsmap) (os : list oid) (n : string) (v : refval) : list mutation :=
+  let a := op_setobjs 0 fs os in a ++ op_setref (run a fs) n v.
 
 (* SetRef with old value (compare-and-swap, old matches): open (creating the
    file when the reference is only packed), truncate, write *)
@@ -371,7 +383,7 @@ Definition op_repack (g : graph) (fs : fsmap) (old_packs : list string) (lim : b
 (* ---------- correspondence entry points ---------- *)
 
 Inductive opd :=
-| OpSetObj (o : oid) | OpPackWrite (os : list oid) (promisor : bool)
+| OpSetObj (o : oid) | OpPackWrite (os : list oid) (promisor : bool) | OpCommit (os : list oid) (n : string) (v : refval)
 | OpSetRef (n : string) (v : refval) | OpCasRef (n : string) (v : refval) | OpRmRef (n : string) | OpPackRefs
 | OpSetIndex (es : list (bool * oid)) | OpSetConfig | OpSetShallow (l : list oid)
 | OpRepack (old_packs : list string) (lim : bool) | OpPrune (old_loose : list oid) (lim : bool).
@@ -380,6 +392,7 @@ Definition ops_of (g : graph) (fs : fsmap) (o : opd) : list mutation :=
   match o with
   | OpSetObj x => op_setobj fs x
   | OpPackWrite os p => op_packwrite fs os p
+  | OpCommit os n v => op_commit fs os n v
   | OpSetRef n v => op_setref fs n v
   | OpCasRef n v => op_casref fs n v
   | OpRmRef n => op_rmref fs n
